@@ -22,10 +22,13 @@ ASSUMPTIONS = ['cells mixing lower-case and upper-case calls, identifiers ending
                'the exact key format of suspicious_cells is not asserted: a key must contain the true title and end with the true A1 address']
 
 SUSPICIOUS = ['eval(1)', 'os.system("x")', 'foo()', 'a(b)c(d)', 'print(1)', '__import__("os")', 'Exec(x)', 'open(f).read()', 'x1(2)', 'lambda_(3)',
-              'exec(compile(s))', 'getattr(o,n)']
+              'exec(compile(s))', 'getattr(o,n)',
+              # lower-case calls that are spelled like Excel functions, and calls next to quoted text
+              'max(1,2)', 'sum(a)', 'round(2.5,0)', 'if(x)', 'say "eval(1)" twice', '"a" exec(b) "c"', 'today()']
 INNOCENT_TEXT = ['SUM(1)', '(hello)', 'print (1)', 'a (b)', 'no call here', '( )', 'IF(A1,1,2)', 'x - (y)', '100%', 'f( is open', 'MAX(MIN(1,2),3)']
 INNOCENT_FORMULA = ['=SUM(1,2)', '=IF(1>0,1,2)', '=MAX(1,2)+MIN(3,4)', '=1+2', '=ROUND(2.5,0)', '="(text)"']
-SUSPICIOUS_FORMULA = ['=foo(1)', '=eval(2)+1', '=1+os.getcwd()', '=a(b)']
+SUSPICIOUS_FORMULA = ['=foo(1)', '=eval(2)+1', '=1+os.getcwd()', '=a(b)', '=A1+max(A1,A2)', '=sum(1,2)*2', '=A1-round(2.5,0)', '=A1&"eval(1)"', '="a"&exec(A1)&"b"',
+                      '=A1&"x"&os.system(A2)&"y"', '="x"&"y"&len(A1)']
 
 
 def fragments_of(text):
